@@ -550,9 +550,16 @@ def _needs(s: dict) -> dict:
 
 def check(name: str, n: tuple, i: tuple, b: tuple, s: tuple, e: tuple, z: tuple) -> bool:
     shape = _BY_NAME[name]
+    if name in _CONTRACT_BROKEN:
+        raise HarnessModelError(_CONTRACT_BROKEN[name])
     expr = shape["expr"]
     v = _build(expr, _Pool(n, i, b, s, e, z), -1, shape["depth"] >= 3)
-    row = _ser(v)  # real _to_row_dict + Arrow contract (HarnessModelError escapes: not a verdict on the repo)
+    try:
+        row = _ser(v)  # real _to_row_dict + Arrow contract
+    except HarnessModelError:
+        # the row is not something the modelled Arrow contract accepts: candidate violation, and the real
+        # replay (real pyarrow) decides — if pyarrow takes the row after all, the item ends INCONCLUSIVE.
+        return False
     try:
         got = _deser(type(v), row)
     except Exception:  # noqa: BLE001  (TypeError/KeyError/... out of the repo's deserialiser = no round trip)
@@ -574,9 +581,17 @@ def replay(name: str, args: dict) -> str | None:
     expr = shape["expr"]
     v = _build(expr, _args_to_pool(args), -1, shape["depth"] >= 3)
     want = _expected(expr, v)
+    try:
+        batch = v._serialize()
+    except Exception as exc:  # noqa: BLE001
+        return f"{_describe(expr)}: serializing {v!r} raised {type(exc).__name__}: {exc}"
     # the Arrow contract must hold on this very instance, otherwise the harness (not the repo) is suspect
-    real_row = U._validate_single_row_batch(v._serialize(), type(v).__name__)
-    if real_row != _ser(v):
+    real_row = U._validate_single_row_batch(batch, type(v).__name__)
+    try:
+        model_row = _ser(v)
+    except HarnessModelError:
+        return None
+    if real_row != model_row:
         return None
     data = v.serialize_to_bytes()
     try:
@@ -588,9 +603,29 @@ def replay(name: str, args: dict) -> str | None:
     return None
 
 
+def _pretty(e: tuple) -> str:
+    k = e[0]
+    if k in ("int", "bool", "str"):
+        return k
+    if k == "enum":
+        return "Color"
+    if k == "opt":
+        return _pretty(e[1]) + " | None"
+    if k == "list":
+        return "list[" + _pretty(e[1]) + "]"
+    if k == "fset":
+        return "frozenset[" + _pretty(e[1]) + "]"
+    if k == "dict":
+        return "dict[" + _pretty(e[1]) + ", " + _pretty(e[2]) + "]"
+    return e[1]
+
+
 def _describe(expr: tuple) -> str:
-    info = _DC[expr[1]]
-    return "dataclass(" + ", ".join(f"{f[0]}: {_annotation(f[1])!s}".replace("harness.C03.", "").replace("typing.", "") for f in info["fields"]) + ")"
+    parts = []
+    for fname, fe, dflt in _DC[expr[1]]["fields"]:
+        extra = "" if dflt is None else (" (Transient)" if dflt[0] == "transient" else " = ...")
+        parts.append(f"{fname}: {_pretty(fe)}{extra}")
+    return "dataclass(" + ", ".join(parts) + ")"
 
 
 def _defect_site(e: tuple) -> str | None:
@@ -637,6 +672,9 @@ def _concrete_pool(seed: int) -> _Pool:
     return _Pool(lens, ints, bools, strs, ens, zs)
 
 
+_CONTRACT_BROKEN: dict[str, str] = {}
+
+
 def _validate_contract() -> None:
     for s in ACTIVE:
         for seed in (0, 1, 2):
@@ -644,10 +682,16 @@ def _validate_contract() -> None:
                 v = _build(s["expr"], _concrete_pool(seed), -1, s["depth"] >= 3)
             except TypeError:
                 continue  # unhashable combination in a concrete set (not generated symbolically either)
-            real = U._validate_single_row_batch(v._serialize(), type(v).__name__)
-            model = _ser(v)
+            try:
+                real = U._validate_single_row_batch(v._serialize(), type(v).__name__)
+            except Exception:  # noqa: BLE001
+                continue  # the repository cannot serialise this instance at all: the condition + replay report it
+            try:
+                model = _ser(v)
+            except Exception as exc:  # noqa: BLE001
+                model = exc
             if real != model:
-                raise HarnessModelError(f"Arrow contract mismatch on shape {s['name']}: real {real!r} != model {model!r}")
+                _CONTRACT_BROKEN[s["name"]] = f"Arrow contract mismatch on {v!r}: real {real!r} != model {model!r}"
 
 
 _validate_contract()
@@ -799,7 +843,8 @@ def _replay_compact(args: dict) -> str | None:
 
 @cond(q=40, t=120, stubs=[_STUB_MSGPACK, _STUB_ARROW], encoded=[U.serialize_compact, U.deserialize_compact, U._compact_plan],
       bound="flat dataclass (int,bool,str,Optional of each,Transient); unbounded ints, strs len<=%d" % _L,
-      replay=_replay_compact, signature=lambda args, conc: "C03:compact:flat-roundtrip-differs")
+      replay=_replay_compact if U._HAVE_MSGPACK else None,  # no un-stubbed msgpack here: the concrete re-run is on the stubbed codec
+      signature=lambda args, conc: "C03:compact:flat-roundtrip-differs")
 def compact_codec_agrees_with_arrow_on_flat(i0: int, i1: int, t0: int, b0: bool, b1: bool, s0: str, s1: str, z0: bool, z1: bool, z2: bool) -> bool:
     """
     pre: len(s0) <= _L and len(s1) <= _L
